@@ -6,13 +6,15 @@
 EXTENDS Integers, Sequences, FiniteSets, TLC, Json
 CONSTANTS PreKinds,      \* kinds of pre-existing content of the main file: "valid", "longer", "junk", "dir"
           D,             \* number of operations after the set-up step
-          MultiFile      \* the format writes path.k per frame when saving more than one frame
+          MultiFile,     \* the format writes path.k per frame when saving more than one frame
+          NF             \* number of frames of a multi-frame save (2, or 10: the numbered names are zero-padded to the width of NF)
 VARIABLES fs, hist, phase, fs0     \* fs0: what the set-up step put on disk (kept for export)
 vars == <<fs, hist, phase, fs0>>
 Absent == <<"absent", "", 0>>
 Old(kd) == <<"old", kd, 0>>
-New(id, n) == <<"new", "", id * 10 + n>>
-Files == 0..2                                   \* 0: the path itself; 1, 2: numbered companions
+New(id, n) == <<"new", "", id * 100 + n>>
+Maybe == <<"maybe", "", 0>>            \* absent or freshly written: not constrained by the property
+Files == 0..NF                                  \* 0: the path itself; 1..NF: numbered companions
 Loadable(c) == c[1] = "new" \/ (c[1] = "old" /\ c[2] \in {"valid", "longer"})
 Targets(n) == IF MultiFile /\ n > 1 THEN 1..n ELSE {0}
 Log(r) == hist' = Append(hist, r)
@@ -20,34 +22,41 @@ Init == fs = [f \in Files |-> Absent] /\ hist = <<>> /\ phase = "setup" /\ fs0 =
 \* the set-up step chooses what already exists on disk
 Setup == /\ phase = "setup" /\ phase' = "run" /\ hist' = hist
          /\ \E c0 \in {Absent} \cup {Old(kd) : kd \in PreKinds} :
-            \E c1, c2 \in (IF MultiFile THEN {Absent, Old("valid"), Old("junk")} ELSE {Absent}) :
-               /\ fs' = [f \in Files |-> IF f = 0 THEN c0 ELSE IF f = 1 THEN c1 ELSE c2]
+            \* which numbered companions already exist: none, only the first, only the last, all but the last, all; valid or junk
+            \E pat \in (IF MultiFile THEN {"none", "first", "last", "allbutlast", "all"} ELSE {"none"}), kd \in (IF MultiFile THEN {"valid", "junk"} ELSE {"valid"}) :
+               /\ fs' = [f \in Files |-> IF f = 0 THEN c0
+                                         ELSE IF (pat = "first" /\ f = 1) \/ (pat = "last" /\ f = NF) \/ (pat = "allbutlast" /\ f < NF) \/ pat = "all"
+                                              THEN Old(kd) ELSE Absent]
                /\ fs0' = fs'
 \* Save / open-for-write(+write+close): refused iff some target exists and overwriting was not requested.
 \* mdtraj creates the numbered files one after another, so with fo = FALSE the (absent) files before the
 \* first existing one are created before the error is raised; existing files are never touched.
 FirstBlocked(n, fo) == IF fo THEN 0 ELSE
      LET ks == { k \in Targets(n) : fs[k] # Absent } IN IF ks = {} THEN -1 ELSE CHOOSE k \in ks : \A j \in ks : k <= j
+NoMaybe == \A f \in Files : fs[f] # Maybe
 WriteOp(entry, n, fo) ==
   LET tg == Targets(n)  id == Len(hist) + 1  b == FirstBlocked(n, fo) IN
   /\ phase = "run" /\ Len(hist) < D
-  /\ fs' = [f \in Files |-> IF f \in tg /\ (fo \/ b = -1 \/ f < b) THEN New(id, IF tg = {0} THEN n ELSE 1) ELSE fs[f]]
+  \* on a refusal (b >= 0) the property only protects what exists: whether absent targets before the first existing one
+  \* have meanwhile been created is left open ("maybe": absent or new)
+  /\ fs' = [f \in Files |-> IF f \in tg /\ (fo \/ b = -1) THEN New(id, IF tg = {0} THEN n ELSE 1)
+                            ELSE IF f \in tg /\ fs[f] = Absent /\ b >= 0 THEN Maybe ELSE fs[f]]
   /\ Log([op |-> entry, n |-> n, fo |-> fo, ok |-> (fo \/ b = -1)])
   /\ UNCHANGED <<phase, fs0>>
 \* open for writing and close without writing anything: the property fixes only the refusal and its purity.
 \* Whether an (empty) file is left behind is up to the format (DCD and DTR create their file lazily), and with
 \* fo = TRUE an existing file may be removed, replaced by an empty one, or survive until the first write.
 OpenOnly(fo) ==
-  /\ phase = "run" /\ Len(hist) < D
+  /\ phase = "run" /\ Len(hist) < D /\ NoMaybe
   /\ LET blocked == ~fo /\ fs[0] # Absent IN
      /\ IF blocked THEN fs' = fs
         ELSE \E c \in {New(Len(hist) + 1, 0), Absent, fs[0]} : fs' = [fs EXCEPT ![0] = c]
      /\ Log([op |-> "open_only", n |-> 0, fo |-> fo, ok |-> ~blocked])
   /\ UNCHANGED <<phase, fs0>>
-ReadOp(entry) == /\ phase = "run" /\ Len(hist) < D /\ Loadable(fs[0]) /\ ~(fs[0][1] = "new" /\ fs[0][3] % 10 = 0)
+ReadOp(entry) == /\ phase = "run" /\ Len(hist) < D /\ NoMaybe /\ Loadable(fs[0]) /\ ~(fs[0][1] = "new" /\ fs[0][3] % 100 = 0)
                  /\ UNCHANGED <<fs, phase, fs0>> /\ Log([op |-> entry, n |-> 0, fo |-> FALSE, ok |-> TRUE])
 Next == \/ Setup
-        \/ \E n \in {1, 2}, fo \in BOOLEAN : WriteOp("save", n, fo)
+        \/ \E n \in {1, NF}, fo \in BOOLEAN : WriteOp("save", n, fo)
         \/ \E fo \in BOOLEAN : WriteOp("open_w", 1, fo)
         \/ \E fo \in BOOLEAN : OpenOnly(fo)
         \/ \E e \in {"load", "load_frame", "iterload", "open_r", "load_topology"} : ReadOp(e)
@@ -56,12 +65,12 @@ Spec == Init /\ [][Next]_vars
 Step == hist'[Len(hist')]
 Acted == hist' # hist
 IsWrite(s) == s.op \in {"save", "open_w", "open_only"}
-NoClobber == [][Acted /\ IsWrite(Step) /\ ~Step.fo => \A f \in Files : fs[f] # Absent => fs'[f] = fs[f]]_vars
+NoClobber == [][Acted /\ IsWrite(Step) /\ ~Step.fo => \A f \in Files : (fs[f] # Absent /\ fs[f] # Maybe) => fs'[f] = fs[f]]_vars
 RefusedIffExists == [][Acted /\ IsWrite(Step) /\ ~Step.fo =>
-                        (Step.ok <=> \A f \in Targets(Step.n) : fs[f] = Absent)]_vars
+                        (Step.ok <=> \A f \in Targets(Step.n) : fs[f] = Absent)]_vars   \* (histories do not continue after a refusal that left Maybe files)
 FullReplace == [][Acted /\ Step.op \in {"save", "open_w"} /\ Step.fo =>
                    /\ Step.ok
-                   /\ \A f \in Targets(Step.n) : fs'[f][1] = "new" /\ fs'[f][3] \div 10 = Len(hist')
+                   /\ \A f \in Targets(Step.n) : fs'[f][1] = "new" /\ fs'[f][3] \div 100 = Len(hist')
                    /\ \A f \in Files \ Targets(Step.n) : fs'[f] = fs[f]]_vars
 ReadsPure == [][Acted /\ ~IsWrite(Step) => fs' = fs]_vars
 Emit == Acted => PrintT(<<"TR", ToJson([hist |-> hist', pre |-> fs, post |-> fs', init |-> fs0])>>)
